@@ -2,7 +2,7 @@
 C18 — every table query on any loaded file is memory-safe.
 
 The statements are about Model/TableQuery.lean: the query interfaces as they are after
-fixes/10 … fixes/20, built from the accessor families' models (Model/Symbols, Reloc, Arrange, Array,
+fixes/10 … 15, 17 … 21, built from the accessor families' models (Model/Symbols, Reloc, Arrange, Array,
 Versym) and the generated guards of Gen/SitesC18.lean, every raw access a checked read/write.
 
 Domain: sections in the state the loader leaves them in, `Sec b`:
